@@ -155,3 +155,377 @@ Proof.
   change (radix2 ^ Z.log2 (Zpos (Qden (this q)))) with (2 ^ Z.log2 (Zpos (Qden (this q)))).
   rewrite <- H. reflexivity.
 Qed.
+
+(* ------------------------------------------------------------------ *)
+(* 2. q2f on dyadic rationals is Flocq's round to nearest even         *)
+(* ------------------------------------------------------------------ *)
+Lemma prec53_gt_0 : Prec_gt_0 53.
+Proof. reflexivity. Qed.
+#[local] Existing Instance prec53_gt_0.
+
+Lemma fexp64_valid : Valid_exp (FLT_exp (-1074) 53).
+Proof. apply FLT_exp_valid. exact prec53_gt_0. Qed.
+#[local] Existing Instance fexp64_valid.
+
+Lemma q2f_dyadic_eq (q : Qc) : dyadic q ->
+  q2f q = binary_normalize 53 1024 eq_refl eq_refl mode_NE
+            (Qnum (this q)) (- Z.log2 (Zpos (Qden (this q)))) false.
+Proof.
+  intros Hd. apply dyadic_den_of_dyadic in Hd. unfold dyadic_den in Hd.
+  unfold q2f. cbv zeta. rewrite (proj2 (Z.eqb_eq _ _) Hd). reflexivity.
+Qed.
+
+Lemma q2f_correct (q : Qc) : dyadic q ->
+  (Rabs (rndR (qR q)) < bpow radix2 1024)%R ->
+  is_finite 53 1024 (q2f q) = true /\ B2R 53 1024 (q2f q) = rndR (qR q).
+Proof.
+  intros Hd Hov. rewrite (q2f_dyadic_eq q Hd).
+  pose proof (binary_normalize_correct 53 1024 eq_refl eq_refl mode_NE
+                (Qnum (this q)) (- Z.log2 (Zpos (Qden (this q)))) false) as H.
+  rewrite <- (qR_dyadic_F2R q (dyadic_den_of_dyadic q Hd)) in H.
+  change (round radix2 (SpecFloat.fexp 53 1024) (round_mode mode_NE)) with rndR in H.
+  rewrite Rlt_bool_true in H by exact Hov.
+  destruct H as (HR & HF & _). split; assumption.
+Qed.
+
+Lemma rnd64_R (q : Qc) : dyadic q ->
+  (Rabs (rndR (qR q)) < bpow radix2 1024)%R -> qR (rnd64 q) = rndR (qR q).
+Proof.
+  intros Hd Hov. destruct (q2f_correct q Hd Hov) as (HF & HR).
+  unfold rnd64. rewrite (f2q_B2R _ HF). exact HR.
+Qed.
+
+(* ------------------------------------------------------------------ *)
+(* the no-overflow range                                               *)
+(* ------------------------------------------------------------------ *)
+Lemma f64max_format : generic_format radix2 (FLT_exp (-1074) 53) (IZR f64max_Z).
+Proof.
+  apply generic_format_FLT.
+  apply (FLT_spec radix2 (-1074) 53 _ (Float radix2 (2 ^ 53 - 1) 971)).
+  - unfold f64max_Z, F2R. cbn [Fnum Fexp]. rewrite mult_IZR.
+    rewrite <- (IZR_Zpower radix2 971) by lia. reflexivity.
+  - cbn [Fnum]. change (radix2 ^ 53) with 9007199254740992.
+    change (2 ^ 53 - 1) with 9007199254740991. lia.
+  - cbn [Fexp]. lia.
+Qed.
+
+Lemma f64max_lt_emax : (IZR f64max_Z < bpow radix2 1024)%R.
+Proof. rewrite <- (IZR_Zpower radix2 1024) by lia. apply IZR_lt. reflexivity. Qed.
+
+Lemma f64max_nonneg : (0 <= IZR f64max_Z)%R.
+Proof. apply IZR_le. discriminate. Qed.
+
+Lemma in_range_Rabs (q : Qc) : in_range q <-> (Rabs (qR q) <= IZR f64max_Z)%R.
+Proof.
+  unfold in_range. rewrite !qR_le, qR_opp. unfold f64max. rewrite qR_of_Z. split.
+  - intros [H1 H2]. apply Rabs_le. split; assumption.
+  - intros H. apply Rabs_le_inv in H. exact H.
+Qed.
+
+Lemma no_overflow_Rabs (x : R) : (Rabs x <= IZR f64max_Z)%R ->
+  (Rabs (rndR x) < bpow radix2 1024)%R.
+Proof.
+  intros H. apply Rle_lt_trans with (IZR f64max_Z); [|exact f64max_lt_emax].
+  unfold rndR. apply abs_round_le_generic.
+  - exact fexp64_valid.
+  - apply valid_rnd_N.
+  - exact f64max_format.
+  - exact H.
+Qed.
+
+Lemma no_overflow (q : Qc) : in_range q -> (Rabs (rndR (qR q)) < bpow radix2 1024)%R.
+Proof. intros H. apply no_overflow_Rabs. apply in_range_Rabs. exact H. Qed.
+
+(* a convenient sufficient condition: |q| <= an integer below the largest float *)
+Lemma in_range_of_Z_bound (q : Qc) (b : Z) : b <= f64max_Z ->
+  (- Q2Qc (inject_Z b) <= q)%Qc -> (q <= Q2Qc (inject_Z b))%Qc -> in_range q.
+Proof.
+  intros Hb H1 H2. apply in_range_Rabs. apply qR_le in H1, H2.
+  rewrite qR_opp, qR_of_Z in H1. rewrite qR_of_Z in H2.
+  apply IZR_le in Hb. apply Rabs_le. lra.
+Qed.
+
+Lemma rnd64_R_in_range (q : Qc) : dyadic q -> in_range q -> qR (rnd64 q) = rndR (qR q).
+Proof. intros Hd Hr. apply rnd64_R; [exact Hd|apply no_overflow; exact Hr]. Qed.
+
+(* ------------------------------------------------------------------ *)
+(* 3. monotonicity                                                     *)
+(* ------------------------------------------------------------------ *)
+Lemma rnd64_mono_gen (x y : Qc) : dyadic x -> dyadic y ->
+  (Rabs (rndR (qR x)) < bpow radix2 1024)%R -> (Rabs (rndR (qR y)) < bpow radix2 1024)%R ->
+  (x <= y)%Qc -> (rnd64 x <= rnd64 y)%Qc.
+Proof.
+  intros Hdx Hdy Hox Hoy Hxy. apply qR_le.
+  rewrite (rnd64_R x Hdx Hox), (rnd64_R y Hdy Hoy).
+  unfold rndR. apply round_le.
+  - exact fexp64_valid.
+  - apply valid_rnd_N.
+  - apply qR_le. exact Hxy.
+Qed.
+
+Lemma rnd64_mono (x y : Qc) : dyadic x -> dyadic y -> in_range x -> in_range y ->
+  (x <= y)%Qc -> (rnd64 x <= rnd64 y)%Qc.
+Proof.
+  intros Hdx Hdy Hrx Hry. apply rnd64_mono_gen; auto using no_overflow.
+Qed.
+
+(* ------------------------------------------------------------------ *)
+(* 4./5. fixed points: representable numbers, integers, float values   *)
+(* ------------------------------------------------------------------ *)
+Lemma rnd64_fix (q : Qc) : dyadic q ->
+  generic_format radix2 (FLT_exp (-1074) 53) (qR q) ->
+  (Rabs (qR q) < bpow radix2 1024)%R -> rnd64 q = q.
+Proof.
+  intros Hd Hg Hb.
+  assert (Hr : rndR (qR q) = qR q).
+  { unfold rndR. apply round_generic; [apply valid_rnd_N|exact Hg]. }
+  apply qR_inj. rewrite rnd64_R; [exact Hr|exact Hd|rewrite Hr; exact Hb].
+Qed.
+
+Lemma nat_int_format (m : Z) : 0 <= m <= 2 ^ 53 ->
+  generic_format radix2 (FLT_exp (-1074) 53) (IZR m).
+Proof.
+  change (2 ^ 53) with 9007199254740992.
+  intros Hm. apply generic_format_FLT.
+  destruct (Z.eq_dec m 9007199254740992) as [->|Hne].
+  - apply (FLT_spec radix2 (-1074) 53 _ (Float radix2 4503599627370496 1)).
+    + unfold F2R, Fnum, Fexp, bpow. simpl Z.pow_pos. lra.
+    + cbn. lia.
+    + cbn. lia.
+  - apply (FLT_spec radix2 (-1074) 53 _ (Float radix2 m 0)).
+    + unfold F2R, Fnum, Fexp, bpow. lra.
+    + cbn [Fnum]. change (radix2 ^ 53) with 9007199254740992. lia.
+    + cbn. lia.
+Qed.
+
+Lemma int_format (z : Z) : Z.abs z <= 2 ^ 53 ->
+  generic_format radix2 (FLT_exp (-1074) 53) (IZR z).
+Proof.
+  intros Hz. destruct (Z_le_gt_dec 0 z) as [Hp|Hn].
+  - apply nat_int_format. lia.
+  - replace z with (- (- z)) by lia. rewrite opp_IZR. apply generic_format_opp.
+    apply nat_int_format. lia.
+Qed.
+
+Lemma int_lt_emax (z : Z) : Z.abs z <= 2 ^ 53 -> (Rabs (IZR z) < bpow radix2 1024)%R.
+Proof.
+  intros Hz. rewrite <- abs_IZR. apply Rle_lt_trans with (bpow radix2 53).
+  - rewrite <- (IZR_Zpower radix2 53) by lia. apply IZR_le. exact Hz.
+  - apply bpow_lt. lia.
+Qed.
+
+Lemma inject_Z_pow2_nz (k : Z) : 0 <= k -> ~ (inject_Z (2 ^ k) == 0)%Q.
+Proof.
+  intros Hk H. unfold Qeq in H. cbn [Qnum Qden inject_Z] in H.
+  pose proof (Z.pow_pos_nonneg 2 k ltac:(lia) Hk). lia.
+Qed.
+
+Lemma dyadic_of_Z (z : Z) : dyadic (Q2Qc (inject_Z z)).
+Proof.
+  exists z, 0. split; [lia|]. apply Q2Qc_eq_iff. change (inject_Z (2 ^ 0)) with 1%Q.
+  field.
+Qed.
+
+Lemma rnd64_int (z : Z) : Z.abs z <= 2 ^ 53 -> rnd64 (Q2Qc (inject_Z z)) = Q2Qc (inject_Z z).
+Proof.
+  intros Hz. apply rnd64_fix.
+  - apply dyadic_of_Z.
+  - rewrite qR_of_Z. apply int_format. exact Hz.
+  - rewrite qR_of_Z. apply int_lt_emax. exact Hz.
+Qed.
+
+Lemma rnd64_w0 : rnd64 w0 = w0.
+Proof. exact (rnd64_int 0 ltac:(discriminate)). Qed.
+
+(* ------------------------------------------------------------------ *)
+(* 6. closure of the dyadic rationals                                  *)
+(* ------------------------------------------------------------------ *)
+Lemma Q2Qc_mult (a b : Q) : Q2Qc (a * b) = (Q2Qc a * Q2Qc b)%Qc.
+Proof.
+  unfold Qcmult. apply Q2Qc_eq_iff. change (this (Q2Qc ?c)) with (Qred c).
+  rewrite !Qred_correct. reflexivity.
+Qed.
+
+Lemma dyadic_plus (x y : Qc) : dyadic x -> dyadic y -> dyadic (x + y).
+Proof.
+  intros (n1 & k1 & H1 & ->) (n2 & k2 & H2 & ->).
+  exists (n1 * 2 ^ k2 + n2 * 2 ^ k1), (k1 + k2). split; [lia|].
+  unfold Qcplus. apply Q2Qc_eq_iff. change (this (Q2Qc ?c)) with (Qred c).
+  rewrite !Qred_correct. rewrite Z.pow_add_r by lia.
+  rewrite inject_Z_plus, !inject_Z_mult.
+  pose proof (inject_Z_pow2_nz k1 H1) as Z1. pose proof (inject_Z_pow2_nz k2 H2) as Z2.
+  set (A := inject_Z (2 ^ k1)) in *. set (B := inject_Z (2 ^ k2)) in *.
+  field. split; assumption.
+Qed.
+
+Lemma dyadic_mult (x y : Qc) : dyadic x -> dyadic y -> dyadic (x * y).
+Proof.
+  intros (n1 & k1 & H1 & ->) (n2 & k2 & H2 & ->).
+  exists (n1 * n2), (k1 + k2). split; [lia|].
+  unfold Qcmult. apply Q2Qc_eq_iff. change (this (Q2Qc ?c)) with (Qred c).
+  rewrite !Qred_correct. rewrite Z.pow_add_r by lia.
+  rewrite !inject_Z_mult.
+  pose proof (inject_Z_pow2_nz k1 H1) as Z1. pose proof (inject_Z_pow2_nz k2 H2) as Z2.
+  set (A := inject_Z (2 ^ k1)) in *. set (B := inject_Z (2 ^ k2)) in *.
+  field. split; assumption.
+Qed.
+
+Lemma dyadic_opp (x : Qc) : dyadic x -> dyadic (- x).
+Proof.
+  intros (n1 & k1 & H1 & ->).
+  exists (- n1), k1. split; [lia|].
+  unfold Qcopp. apply Q2Qc_eq_iff. change (this (Q2Qc ?c)) with (Qred c).
+  rewrite !Qred_correct. rewrite inject_Z_opp.
+  pose proof (inject_Z_pow2_nz k1 H1) as Z1.
+  set (A := inject_Z (2 ^ k1)) in *.
+  field. assumption.
+Qed.
+
+Lemma dyadic_minus (x y : Qc) : dyadic x -> dyadic y -> dyadic (x - y).
+Proof. intros Hx Hy. unfold Qcminus. apply dyadic_plus; [exact Hx|apply dyadic_opp; exact Hy]. Qed.
+
+Lemma dyadic_w0 : dyadic w0.
+Proof. exact (dyadic_of_Z 0). Qed.
+
+Lemma dyadic_pow2Q (e : Z) : dyadic (Q2Qc (pow2Q e)).
+Proof.
+  destruct e as [|p|p]; unfold pow2Q.
+  - exact (dyadic_of_Z 1).
+  - apply dyadic_of_Z.
+  - exists 1, (Zpos p). split; [lia|]. apply Q2Qc_eq_iff.
+    change (2 ^ Zpos p) with (Z.pow_pos 2 p). rewrite <- Pos2Z.inj_pow_pos.
+    apply Qmake_Qdiv.
+Qed.
+
+Lemma dyadic_f2q (x : f64) : dyadic (f2q x).
+Proof.
+  destruct x as [s|s|s pl H|s m e H]; try exact dyadic_w0.
+  unfold f2q, f2v. rewrite Q2Qc_mult. apply dyadic_mult; [apply dyadic_of_Z|apply dyadic_pow2Q].
+Qed.
+
+Lemma dyadic_rnd64 (q : Qc) : dyadic (rnd64 q).
+Proof. unfold rnd64. apply dyadic_f2q. Qed.
+
+(* ------------------------------------------------------------------ *)
+(* 5. float values are fixed points; idempotence                       *)
+(* ------------------------------------------------------------------ *)
+Lemma rnd64_f2q (x : f64) : rnd64 (f2q x) = f2q x.
+Proof.
+  destruct (is_finite 53 1024 x) eqn:HF.
+  - apply rnd64_fix.
+    + apply dyadic_f2q.
+    + rewrite (f2q_B2R x HF).
+      exact (generic_format_B2R 53 1024 x).
+    + rewrite (f2q_B2R x HF). apply abs_B2R_lt_emax.
+  - rewrite (f2q_not_finite x HF). exact rnd64_w0.
+Qed.
+
+Lemma rnd64_exact (q : Qc) (x : f64) : is_finite 53 1024 x = true -> q = f2q x -> rnd64 q = q.
+Proof. intros _ ->. apply rnd64_f2q. Qed.
+
+(* unconditional: holds for every q (if q2f q is not finite, rnd64 q = 0) *)
+Lemma rnd64_idem (q : Qc) : rnd64 (rnd64 q) = rnd64 q.
+Proof. unfold rnd64 at 2 3. apply rnd64_f2q. Qed.
+
+Lemma exactb_rnd64 (q : Qc) : exactb (rnd64 q) = true.
+Proof.
+  unfold exactb, weqb. rewrite rnd64_idem.
+  rewrite (proj1 (Qceq_alt (rnd64 q) (rnd64 q)) eq_refl). reflexivity.
+Qed.
+
+(* ------------------------------------------------------------------ *)
+(* 7. error bounds                                                     *)
+(* ------------------------------------------------------------------ *)
+Lemma rnd64_err_ulp (q : Qc) : dyadic q -> in_range q ->
+  (Rabs (qR (rnd64 q) - qR q) <= / 2 * ulp radix2 (FLT_exp (-1074) 53) (qR q))%R.
+Proof.
+  intros Hd Hr. rewrite (rnd64_R_in_range q Hd Hr). unfold rndR.
+  apply error_le_half_ulp. exact fexp64_valid.
+Qed.
+
+Lemma rnd64_err_rel (q : Qc) : dyadic q -> in_range q ->
+  (bpow radix2 (-1022) <= Rabs (qR q))%R ->
+  (Rabs (qR (rnd64 q) - qR q) <= bpow radix2 (-53) * Rabs (qR q))%R.
+Proof.
+  intros Hd Hr Hn. rewrite (rnd64_R_in_range q Hd Hr). unfold rndR.
+  replace (bpow radix2 (-53)) with (/ 2 * bpow radix2 (- (53) + 1))%R.
+  - apply relative_error_N_FLT; [reflexivity|exact Hn].
+  - change (- (53) + 1) with (-53 + 1). rewrite bpow_plus.
+    change (bpow radix2 1) with 2%R. field.
+Qed.
+
+(* ------------------------------------------------------------------ *)
+(* further facts used when composing roundings                         *)
+(* ------------------------------------------------------------------ *)
+Lemma in_range_rnd64 (q : Qc) : dyadic q -> in_range q -> in_range (rnd64 q).
+Proof.
+  intros Hd Hr. apply in_range_Rabs. rewrite (rnd64_R_in_range q Hd Hr).
+  unfold rndR. apply abs_round_le_generic.
+  - exact fexp64_valid.
+  - apply valid_rnd_N.
+  - exact f64max_format.
+  - apply in_range_Rabs. exact Hr.
+Qed.
+
+Lemma in_range_opp (q : Qc) : in_range q -> in_range (- q).
+Proof. rewrite !in_range_Rabs, qR_opp, Rabs_Ropp. exact (fun H => H). Qed.
+
+Lemma rnd64_opp (q : Qc) : dyadic q -> in_range q -> rnd64 (- q) = (- rnd64 q)%Qc.
+Proof.
+  intros Hd Hr. apply qR_inj.
+  rewrite qR_opp, (rnd64_R_in_range q Hd Hr),
+    (rnd64_R_in_range (- q) (dyadic_opp q Hd) (in_range_opp q Hr)), qR_opp.
+  unfold rndR. apply round_NE_opp.
+Qed.
+
+Lemma rnd64_nonneg (q : Qc) : dyadic q -> in_range q -> (w0 <= q)%Qc -> (w0 <= rnd64 q)%Qc.
+Proof.
+  intros Hd Hr H0. rewrite <- rnd64_w0.
+  apply rnd64_mono; [exact dyadic_w0|exact Hd| |exact Hr|exact H0].
+  apply in_range_Rabs. rewrite qR_w0, Rabs_R0. exact f64max_nonneg.
+Qed.
+
+(* ------------------------------------------------------------------ *)
+(* 8. a total specification operator: round to nearest even of ANY     *)
+(*    rational (not executable: it goes through R).  It satisfies the  *)
+(*    abstract hypotheses on rnd for ALL arguments and coincides with  *)
+(*    the executable rnd64 on dyadic arguments in range.               *)
+(* ------------------------------------------------------------------ *)
+Definition rndQ (q : Qc) : Qc :=
+  Q2Qc (inject_Z (ZnearestE (scaled_mantissa radix2 (FLT_exp (-1074) 53) (qR q)))
+        * pow2Q (cexp radix2 (FLT_exp (-1074) 53) (qR q))).
+
+Lemma rndQ_R (q : Qc) : qR (rndQ q) = rndR (qR q).
+Proof. unfold rndQ. rewrite qR_Q2Qc, Q2R_mult, Q2R_inject_Z, Q2R_pow2Q. reflexivity. Qed.
+
+Lemma rnd64_rndQ (q : Qc) : dyadic q -> in_range q -> rnd64 q = rndQ q.
+Proof. intros Hd Hr. apply qR_inj. rewrite rndQ_R. apply rnd64_R_in_range; assumption. Qed.
+
+Lemma rndQ_mono (x y : Qc) : (x <= y)%Qc -> (rndQ x <= rndQ y)%Qc.
+Proof.
+  intros H. apply qR_le. rewrite !rndQ_R. unfold rndR. apply round_le.
+  - exact fexp64_valid.
+  - apply valid_rnd_N.
+  - apply qR_le. exact H.
+Qed.
+
+Lemma rndQ_int (z : Z) : Z.abs z <= 2 ^ 53 -> rndQ (Q2Qc (inject_Z z)) = Q2Qc (inject_Z z).
+Proof.
+  intros Hz. apply qR_inj. rewrite rndQ_R, qR_of_Z. unfold rndR.
+  apply round_generic; [apply valid_rnd_N|apply int_format; exact Hz].
+Qed.
+
+Lemma rndQ_w0 : rndQ w0 = w0.
+Proof. exact (rndQ_int 0 ltac:(discriminate)). Qed.
+
+Lemma rndQ_idem (q : Qc) : rndQ (rndQ q) = rndQ q.
+Proof.
+  apply qR_inj. rewrite !rndQ_R. unfold rndR.
+  apply round_generic; [apply valid_rnd_N|].
+  apply generic_format_round; [exact fexp64_valid|apply valid_rnd_N].
+Qed.
+
+Lemma dyadic_rndQ (q : Qc) : dyadic (rndQ q).
+Proof.
+  unfold rndQ. rewrite Q2Qc_mult. apply dyadic_mult; [apply dyadic_of_Z|apply dyadic_pow2Q].
+Qed.
